@@ -219,10 +219,15 @@ func (Sim) Run(raw json.RawMessage, prop string, keep bool) (res simfw.Result) {
 		curClient *simenv.Client
 		callsIn   int
 		callsOut  int
+		outStatus int    // final status committed to the client when the handler returned (0: none)
+		outBody   string // body bytes the client had received by then
 	)
 	handler := http.HandlerFunc(func(w http.ResponseWriter, r *http.Request) {
 		callsIn = curClient.Calls
-		defer func() { callsOut = curClient.Calls }()
+		defer func() {
+			callsOut = curClient.Calls
+			outStatus, outBody = curClient.Status, curClient.Body.String()
+		}()
 		cur.Script.Serve(w, r, log, rec, &party)
 	})
 	auth := authFunc(s.Auth, &party, log, &authCalls, &authSaw, nil)
@@ -313,6 +318,7 @@ func (Sim) Run(raw json.RawMessage, prop string, keep bool) (res simfw.Result) {
 		client := simenv.NewClient(log, q.Client, q.Method)
 		curClient = client
 		callsIn, callsOut = 0, 0
+		outStatus, outBody = 0, ""
 		var panicked any
 		func() {
 			defer func() { panicked = recover() }()
@@ -339,9 +345,17 @@ func (Sim) Run(raw json.RawMessage, prop string, keep bool) (res simfw.Result) {
 			// response is judged, except that strict mode had not let anything through; the following requests
 			// of the history show whether the crash left anything behind in the middleware.
 			res.Fault("handler_abort")
-			if s.Kind == "validator" && s.Strict && callsAtReturn != callsIn {
-				res.Violate(Prop, "strict-early", sig("strict-early-write"), fmt.Sprintf("req #%d: the handler crashed, and %d calls had already reached the client connection in strict mode", i, callsAtReturn-callsIn))
+			// (only the handler's own body bytes count: what else the middleware tells the client about a
+			// crashed handler is outside the property)
+			if s.Kind == "validator" && s.Strict {
+				for _, op := range q.Script.Ops {
+					if op.Op == "write" && len(op.Data) >= 8 && !strings.Contains(q.Body, op.Data) && strings.Contains(outBody, op.Data) {
+						res.Violate(Prop, "strict-early", sig("strict-early-write"), fmt.Sprintf("req #%d: the handler crashed, and its bytes %q had already reached the client in strict mode, before any validation", i, op.Data))
+						break
+					}
+				}
 			}
+			_ = callsAtReturn
 			continue
 		}
 		if panicked != nil {
@@ -399,8 +413,8 @@ func (Sim) Run(raw json.RawMessage, prop string, keep bool) (res simfw.Result) {
 			res.Violate(Prop, "intent", fmt.Sprintf("%s/intent:%s-vs-%s/%s", Prop, wantByIntent, expect, strings.SplitN(intent, ":", 2)[0]),
 				fmt.Sprintf("req #%d (%s %s): built as %q but the library's own FindRoute/ValidateRequest says %s (route err=%v, validation err=%v)", i, q.Method, q.Path, intent, expect, rerr, verr))
 		}
-		if streamFaultSeen && expect == "pass" {
-			// the validator itself observed the stream error: it must reject
+		if streamFaultSeen && expect == "pass" && route != nil && route.Operation != nil && route.Operation.RequestBody != nil {
+			// the validator itself observed the stream error while the operation declares a body to validate: it must reject
 			expect = "400"
 			res.Probe("fault-seen-by-validator")
 		}
@@ -444,6 +458,10 @@ func (Sim) Run(raw json.RawMessage, prop string, keep bool) (res simfw.Result) {
 			if expect == "400" {
 				wantStatus = 400
 			}
+			// "the not-found error": for a known path with another method, 405 says the same more precisely
+			statusOK := func(st int) bool {
+				return st == wantStatus || (expect == "404" && st == 405 && errors.Is(rerr, routers.ErrMethodNotAllowed))
+			}
 			if l := leaks(client.Body.String()); l != "" {
 				res.Violate(Prop, "self-answer", sig("handler-bytes-without-handler"), fmt.Sprintf("req #%d: client body %q contains handler bytes %q", i, client.Body.String(), l))
 			}
@@ -454,12 +472,18 @@ func (Sim) Run(raw json.RawMessage, prop string, keep bool) (res simfw.Result) {
 					if expect == "400" {
 						wantCode = int(openapi3filter.ErrCodeRequestInvalid)
 					}
-					if len(errCalls) != 1 || errCalls[0].status != wantStatus || errCalls[0].code != wantCode || errCalls[0].err == nil {
-						res.Violate(Prop, "self-answer", sig("errfunc-"+expect), fmt.Sprintf("req #%d: ErrFunc calls=%v, want exactly one (%d, code %d, non-nil error)", i, errCalls, wantStatus, wantCode))
+					bad := len(errCalls) == 0
+					for _, c := range errCalls {
+						if !statusOK(c.status) || c.code != wantCode || c.err == nil {
+							bad = true
+						}
+					}
+					if bad {
+						res.Violate(Prop, "self-answer", sig("errfunc-"+expect), fmt.Sprintf("req #%d: ErrFunc calls=%v, want the request's rejection (%d, code %d, non-nil error)", i, errCalls, wantStatus, wantCode))
 					}
 				}
 				if s.ErrFunc == "default" || s.ErrFunc == "record" {
-					if client.Status != wantStatus {
+					if !statusOK(client.Status) {
 						res.Violate(Prop, "self-answer", sig("status-"+expect), fmt.Sprintf("req #%d: client status %d, want %d", i, client.Status, wantStatus))
 					}
 				}
@@ -521,9 +545,13 @@ func (Sim) Run(raw json.RawMessage, prop string, keep bool) (res simfw.Result) {
 			res.Violate(Prop, "intent", fmt.Sprintf("%s/resp-intent:%s", Prop, q.RespIntent),
 				fmt.Sprintf("req #%d: response built as %s (status %d, body %q) but ValidateResponse says %v", i, q.RespIntent, R.Status, R.Body, rverr))
 		}
-		// between handler entry and return nothing may reach the client
-		if callsOut != callsIn {
-			res.Violate(Prop, "strict-early", sig("strict-early-write"), fmt.Sprintf("req #%d: %d calls reached the client connection while the handler was still running (strict mode must hold everything back until the response is validated)", i, callsOut-callsIn))
+		// an invalid response: by the time the handler returned, neither a final non-error status nor any of
+		// its bytes may have been committed (what is committed cannot be replaced). Interim responses, and
+		// anything at all for a valid response, are not the property's business.
+		if rverr != nil && callsOut != callsIn {
+			if l := leaks(outBody); l != "" || (outStatus != 0 && outStatus < 500) {
+				res.Violate(Prop, "strict-early", sig("strict-early-write"), fmt.Sprintf("req #%d: while the handler was still running, status %d and body %q had already been committed to the client; the response is invalid (%v) and can no longer be replaced", i, outStatus, simfw.Trunc(outBody, 80), rverr))
+			}
 		}
 		if rverr == nil {
 			want := refFault.View(compareHeaders)
@@ -540,13 +568,19 @@ func (Sim) Run(raw json.RawMessage, prop string, keep bool) (res simfw.Result) {
 				res.Violate(Prop, "strict-invalid", sig("strict-leak-body"), fmt.Sprintf("req #%d: invalid handler response replaced, yet client body %q contains handler bytes %q", i, client.Body.String(), l))
 			}
 			if s.ErrFunc != "default" {
-				if len(errCalls) != 1 || errCalls[0].status != 500 || errCalls[0].code != int(openapi3filter.ErrCodeResponseInvalid) || errCalls[0].err == nil {
-					res.Violate(Prop, "strict-invalid", sig("errfunc-500"), fmt.Sprintf("req #%d: ErrFunc calls=%v, want exactly one (500, response-invalid)", i, errCalls))
+				bad := len(errCalls) == 0
+				for _, c := range errCalls {
+					if c.status < 500 || c.status > 599 || c.code != int(openapi3filter.ErrCodeResponseInvalid) || c.err == nil {
+						bad = true
+					}
+				}
+				if bad {
+					res.Violate(Prop, "strict-invalid", sig("errfunc-500"), fmt.Sprintf("req #%d: ErrFunc calls=%v, want a server error (5xx, response-invalid)", i, errCalls))
 				}
 			}
 			if s.ErrFunc == "default" || s.ErrFunc == "record" {
-				if client.Status != 500 {
-					res.Violate(Prop, "strict-invalid", sig("strict-leak-status"), fmt.Sprintf("req #%d: invalid handler response (handler status %d): client status %d, want 500", i, R.Status, client.Status))
+				if client.Status < 500 || client.Status > 599 {
+					res.Violate(Prop, "strict-invalid", sig("strict-leak-status"), fmt.Sprintf("req #%d: invalid handler response (handler status %d): client status %d, want a server error", i, R.Status, client.Status))
 				}
 			}
 		}
